@@ -261,6 +261,13 @@ def value_at(root, expr, at_line, keep=(), depth=12):
                 if not allb:
                     return n
                 last = max(allb, key=lambda a: a.lineno)
+                if isinstance(last, ast.AugAssign) and isinstance(
+                        last.target, ast.Name) and any(
+                            last in b for b in blocks):
+                    prev = expand(ast.Name(id=n.id, ctx=ast.Load()),
+                                  last.lineno, d - 1)
+                    rhs = expand(_clone(last.value), last.lineno, d - 1)
+                    return ast.BinOp(left=prev, op=last.op, right=rhs)
                 if not (isinstance(last, ast.Assign) and len(last.targets)
                         == 1 and isinstance(last.targets[0], ast.Name)):
                     return n
